@@ -9,7 +9,7 @@ SPEC = dict(
     property='C08',
     groups=[
         dict(name='mgr', harness='h_mgr.cpp', tus=MGR_TUS, models=MODELS + ['c08_mgr.c'], shadow_task=True,
-             instances=[I('iqh_check'), I('iqh_reply'), I('iqh_handle'), I('mgr_version'), I('mgr_time'), I('mgr_disco'), I('mgr_vcard'), I('mgr_roster')]),
+             instances=[I('iqh_check'), I('iqh_reply'), I('iqh_handle_result'), I('iqh_handle_error'), I('iqh_handle_erroriq'), I('mgr_version'), I('mgr_time'), I('mgr_disco'), I('mgr_vcard'), I('mgr_roster')]),
     ],
     bounds=[], assumptions=[], outside=[],
 )
